@@ -316,7 +316,8 @@ template <class U> static std::string num(U v) {
   if (std::is_signed<U>::value) o << static_cast<long long>(v); else o << static_cast<unsigned long long>(v);
   return o.str();
 }
-template <class E> static std::string enum_num(E e) { return num(static_cast<typename std::underlying_type<E>::type>(e)); }
+template <class E> static typename std::enable_if<std::is_enum<E>::value, std::string>::type
+enum_num(E e) { return num(static_cast<typename std::underlying_type<E>::type>(e)); }
 static std::string enum_num(bool b) { return b ? "1" : "0"; }
 template <class T> static typename std::enable_if<std::is_integral<T>::value && !std::is_same<T, bool>::value, std::string>::type
 enum_num(T v) { return num(v); }
@@ -330,7 +331,9 @@ def impl_spelling(name, attr):
     return [name_conversion.convert_case("SHOUTY_CASE", c, name) for c in cases]
 
 
-def build_driver(md, traits=True):
+def build_driver(md, traits=True, const_only=False):
+    if const_only:
+        return build_const_driver(md)
     ns = "::" + "::".join(md["namespace"])
     L = [DRIVER_HEAD, "int main() {"]
     for i, e in enumerate(md["enums"]):
@@ -382,7 +385,7 @@ def build_driver(md, traits=True):
             L.append("    {")
             L.append("      use(v.has_%s().ValueOr(false)); auto f = v.%s(); use(f.Ok()); use(cv.%s().Ok());" % (fn, fn, fn))
             if cls in ("uint", "int"):
-                L.append("      use(f.IsComplete()); if (f.Ok()) use(f.Read()); use(f.UncheckedRead()); use(f.CouldWriteValue(1)); use(f.TryToWrite(1)); use(decltype(f)::SizeInBits());")
+                L.append("      use(f.IsComplete()); if (f.Ok()) { use(f.Read()); use(f.UncheckedRead()); } use(f.CouldWriteValue(1)); use(f.TryToWrite(1)); use(decltype(f)::SizeInBits());")
             elif cls == "float":
                 L.append("      if (f.Ok()) use(f.Read()); use(f.TryToWrite(1.5f)); use(f.CouldWriteValue(1.5f));")
             elif cls == "flag":
@@ -390,11 +393,11 @@ def build_driver(md, traits=True):
             elif cls == "enum":
                 L.append("      typedef decltype(f)::ValueType E; if (f.Ok()) use(f.Read()); use(f.TryToWrite(static_cast<E>(1))); use(f.CouldWriteValue(static_cast<E>(0)));")
             elif cls == "struct":
-                L.append("      use(f.IsComplete()); use(f.SizeIsKnown()); use(f.Equals(f));")
+                L.append("      use(f.IsComplete()); use(f.SizeIsKnown()); if (f.Ok()) use(f.Equals(f));")
             elif cls == "array":
-                L.append("      use(f.ElementCount()); use(f.SizeInBytes()); if (f.ElementCount() > 0 && f[0].Ok()) use(f[0].Read()); use(f.Equals(f));")
+                L.append("      use(f.ElementCount()); use(f.SizeInBytes()); if (f.Ok() && f.ElementCount() > 0 && f[0].Ok()) { use(f[0].Read()); use(f.Equals(f)); }")
             elif cls in ("vint", "vbool", "venum"):
-                L.append("      if (f.Ok()) use(f.Read()); use(f.UncheckedRead());")
+                L.append("      if (f.Ok()) { use(f.Read()); use(f.UncheckedRead()); }")
             elif cls == "vconst":
                 L.append('      std::cout << "CONST s=%d k=%s v=" << enum_num(f.Read()) << "\\n";' % (i, fn))
                 L.append("      use(decltype(v)::%s().Read());" % fn)
@@ -402,6 +405,29 @@ def build_driver(md, traits=True):
                 L.append("      use(::emboss::WriteToString(f));")
             L.append("    }")
         L.append("  }")
+    L.append("  return 0;\n}\n")
+    return "\n".join(L)
+
+
+def build_const_driver(md):
+    """Small program that prints the static constants the header exposes (run; compared with the IR)."""
+    ns = "::" + "::".join(md["namespace"])
+    L = [DRIVER_HEAD, "int main() {"]
+    for i, e in enumerate(md["enums"]):
+        q = ns + "::" + "::".join(e["cpp"])
+        j = 0
+        for nm, v, attr in e["values"]:
+            for sp in impl_spelling(nm, attr):
+                L.append('  std::cout << "ENUMCONST e=%d j=%d v=" << enum_num(%s::%s) << "\\n";' % (i, j, q, sp))
+                j += 1
+    for i, s in enumerate(md["structs"]):
+        path = s["cpp"]
+        q = ns + "".join("::" + c for c in path[:-1]) + "::" + path[-1] + "Writer"
+        L.append('  std::cout << "CONST s=%d k=$max_size_in_bytes v=" << num(%s::MaxSizeInBytes().Read()) << "\\n";' % (i, q))
+        L.append('  std::cout << "CONST s=%d k=$min_size_in_bytes v=" << num(%s::MinSizeInBytes().Read()) << "\\n";' % (i, q))
+        for f in s["fields"]:
+            if f["cls"] == "vconst":
+                L.append('  std::cout << "CONST s=%d k=%s v=" << enum_num(%s::%s().Read()) << "\\n";' % (i, f["name"], q, f["name"]))
     L.append("  return 0;\n}\n")
     return "\n".join(L)
 
@@ -423,11 +449,12 @@ def _run(cmd, cwd, timeout=300, env=None):
 
 
 CONFIGS = [   # (label, header dir, std, extra flags, driver)
-    ("c++14-run", "t", "c++14", ["-O0", "-w"], "full"),
+    ("c++14", "t", "c++14", ["-fsyntax-only", "-w"], "full"),
     ("c++11", "t", "c++11", ["-fsyntax-only", "-w"], "full"),
     ("c++17-skip-checks", "t", "c++17", ["-fsyntax-only", "-w", "-DEMBOSS_SKIP_CHECKS", "-DEMBOSS_NO_OPTIMIZATIONS"], "full"),
     ("c++11-pedantic", "t", "c++11", ["-fsyntax-only", "-w", "-pedantic-errors"], "full"),
     ("c++14-no-enum-traits", "nt", "c++14", ["-fsyntax-only", "-w"], "notraits"),
+    ("c++14-constants-run", "t", "c++14", ["-O0", "-w"], "const"),
 ]
 
 
@@ -454,9 +481,9 @@ def build_module(job):
         out["times"]["embossc-" + sub] = time.time() - t0
     if out["embossc"]["t"][0] != 0:
         return out
-    for name, traits in (("full", True), ("notraits", False)):
+    for name, traits, const in (("full", True, False), ("notraits", False, False), ("const", True, True)):
         with open(os.path.join(d, "driver_%s.cc" % name), "w") as f:
-            f.write(build_driver(md, traits))
+            f.write(build_driver(md, traits, const))
     for label, sub, std, flags, drv in CONFIGS:
         if out["embossc"][sub][0] != 0:
             continue
@@ -466,7 +493,9 @@ def build_module(job):
         if "-fsyntax-only" not in flags:
             cmd += ["-o", exe]
         rc, log = _run(cmd, d)
-        out["gxx"][label] = (rc, log[-6000:])
+        if drv == "const" and rc != 0 and any(r[0] != 0 for r in out["gxx"].values()):
+            continue      # the header is already known to be rejected; the constants program adds nothing
+        out["gxx"][label] = (rc, log[:8000])
         out["times"][label] = time.time() - t0
         if rc == 0 and "-fsyntax-only" not in flags:
             rc2, o = _run([exe], d, timeout=60)
@@ -613,7 +642,7 @@ def run_modules(ctx, mods):
         else:
             n_ok += 1
         # constants
-        if "c++14-run" in res["gxx"] and res["gxx"]["c++14-run"][0] == 0:
+        if "c++14-constants-run" in res["gxx"] and res["gxx"]["c++14-constants-run"][0] == 0:
             if res.get("run", 1) != 0:
                 ctx.violation("cpp-driver-crash", "the instantiation driver of an accepted module exits with %s" % res.get("run"),
                               dict(kind="names-module", module=strip(md), output=res["lines"][-5:]), found_input=True)
@@ -810,5 +839,5 @@ def run(ctx):
     macros = gen_names.system_macros(gen_names.STANDARDS)
     ctx.extra["system_macros_not_reserved"] = len([m for m in macros if m not in reserved and
                                                     (gen_names.SHOUTY_RE.match(m) or gen_names.SNAKE_RE.match(m))])
-    mods = corpus_modules() + generate(ctx, 150 if ctx.thorough() else 24, reserved, macros)
+    mods = corpus_modules() + generate(ctx, 150 if ctx.thorough() else 16, reserved, macros)
     run_modules(ctx, mods)
